@@ -8,8 +8,17 @@ use zydeco_session::{CompilerSession, SourceLoadError};
 
 pub const NAMES: [&str; 6] = ["a.zy", "a.zyi", "b.zy", "b.zyi", "c.zy", "c.zyi"];
 
-fn spelling(rng: &mut Rng, dir: &Path, name: &str) -> String {
+/// `from_store`: the importing file is reached through a symlink into `store/`, and relative imports
+/// resolve beside the canonical file.
+fn spelling(rng: &mut Rng, dir: &Path, name: &str, from_store: bool) -> String {
     let dn = dir.file_name().unwrap().to_string_lossy().to_string();
+    if from_store {
+        return match rng.below(3) {
+            | 0 => format!("../{name}"),
+            | 1 => format!("{}/{name}", dir.display()),
+            | _ => format!("../../{dn}/link/{name}"),
+        };
+    }
     match rng.below(5) {
         | 0 => name.to_string(),
         | 1 => format!("./{name}"),
@@ -42,15 +51,25 @@ pub fn replay_sources(cases_path: &str, out_path: &str) {
             let mut rng = Rng(seed ^ (idx as u64).wrapping_mul(0xD1342543DE82EF95));
             let ex: BTreeSet<usize> = ints(&case["ex"]).into_iter().collect();
             let imp: Vec<Vec<usize>> = case["imp"].as_array().unwrap().iter().map(ints).collect();
+            let store = dir.join("store");
+            let _ = std::fs::create_dir_all(&store);
             for f in 1..=nf {
                 let path = dir.join(NAMES[f - 1]);
+                let _ = std::fs::remove_file(&path);
+                let _ = std::fs::remove_file(store.join(NAMES[f - 1]));
                 if ex.contains(&f) {
+                    // a signature file may be a symlink to the real file in another directory (an implementation is
+                    // not moved: its companion is the sibling of its CANONICAL path)
+                    let via_link = f % 2 == 0 && rng.chance(1, 2);
                     let parts: Vec<String> =
-                        imp[f - 1].iter().map(|&t| format!("@(import(\"{}\"))", spelling(&mut rng, dir, NAMES[t - 1]))).collect();
+                        imp[f - 1].iter().map(|&t| format!("@(import(\"{}\"))", spelling(&mut rng, dir, NAMES[t - 1], via_link))).collect();
                     let text = if parts.is_empty() { "()".to_string() } else { format!("({}, ())", parts.join(", ")) };
-                    std::fs::write(&path, text).unwrap();
-                } else {
-                    let _ = std::fs::remove_file(&path);
+                    if via_link {
+                        std::fs::write(store.join(NAMES[f - 1]), text).unwrap();
+                        std::os::unix::fs::symlink(Path::new("store").join(NAMES[f - 1]), &path).unwrap();
+                    } else {
+                        std::fs::write(&path, text).unwrap();
+                    }
                 }
             }
             let canon: BTreeMap<PathBuf, usize> =
